@@ -277,6 +277,19 @@ fn one_case(a: &Val, b: &Val, c: &Val) -> (String, serde_json::Value, bool) {
     let va = a.eval();
     let vb = b.eval();
     let vc = c.eval();
+    // the clamped sum / difference of the selection (saturating_add / saturating_sub): on the values
+    // as they are, and - when every amount is small - on the values scaled by 2^125, whose sums
+    // leave the i128 range
+    let small = |x: &CanonicalAssets| x.iter().all(|(_, z)| z.abs() <= 2);
+    let boosted = small(&va) && small(&vb);
+    let boost = |x: &CanonicalAssets| -> CanonicalAssets {
+        if !boosted {
+            return x.clone();
+        }
+        x.iter().fold(CanonicalAssets::empty(), |acc, (k, z)| acc + CanonicalAssets::from_class_and_amount(k.clone(), z * (1i128 << 125)))
+    };
+    let sat_add = boost(&va).saturating_add(boost(&vb));
+    let sat_sub = boost(&va).saturating_sub(boost(&vb));
     let add_ab = va.clone() + vb.clone();
     let add_ba = vb.clone() + va.clone();
     let sub_ab = va.clone() - vb.clone();
@@ -312,14 +325,14 @@ fn one_case(a: &Val, b: &Val, c: &Val) -> (String, serde_json::Value, bool) {
          o_add_ab_c := {}; o_add_a_bc := {}; o_subadd := {}; o_add_a_negb := {}; \
          o_ct_ab := {}; o_cs_ab := {}; o_emp_a := {}; o_eon_a := {}; o_naked_a := {}; \
          o_eq_ab := {}; o_eq_subadd_a := {}; o_eq_a_stripped := {}; o_ord_a := {}; o_ord_b := {}; o_rt_a := {}; \
-         o_red_add := {}; o_red_sub := {}; o_red_neg := {} |}}",
+         o_red_add := {}; o_red_sub := {}; o_red_neg := {}; o_boosted := {}; o_sat_add := {}; o_sat_sub := {} |}}",
         e(&va), e(&vb), e(&vc), e(&add_ab), e(&add_ba), e(&sub_ab), e(&neg_a),
         e(&add_ab_c), e(&add_a_bc), e(&subadd), e(&add_a_negb),
         gal::b(va.contains_total(&vb)), gal::b(va.contains_some(&vb)), gal::b(va.is_empty()),
         gal::b(va.is_empty_or_negative()), gal::b(va.is_only_naked()),
         gal::b(va == vb), gal::b(subadd == va), gal::b(va == stripped),
         entries_gal(&ord_a), entries_gal(&ord_b), e(&rt_a),
-        oe(&red_add), oe(&red_sub), oe(&red_neg)
+        oe(&red_add), oe(&red_sub), oe(&red_neg), gal::b(boosted), e(&sat_add), e(&sat_sub)
     );
     let text = format!("{{| c_a := {}; c_b := {}; c_c := {}; c_obs := {} |}}", a.gal(), b.gal(), c.gal(), obs);
     let nontrivial = va.len() + vb.len() >= 2 && !(va.is_empty() && vb.is_empty());
